@@ -9,7 +9,7 @@ import numpy as np
 DTYPES = ["bool", "int", "float", "str", "fixed", "date", "datetime", "object", "timedelta",
           "int32", "float32", "bytes", "datetime_s"]
 
-STRS = ["", "a", "b", "bb", "Zed", "ünï", "日本", "wide\U0001d4b3", "line\nbreak", "x" * 55, "y" * 50 + "z",
+STRS = ["", "a", "b", "bb", "Zed", "ünï", "日本", "wide\U0001d4b3", "line\nbreak", "cr\rret", "ls\u2028sep", "x" * 55, "y" * 50 + "z",
         "a b", "é"]
 DATES = ["2020-01-01", "1999-12-31", "1970-01-01", "2024-02-29"]
 DATETIMES = ["2020-01-01T10:00:00.500000", "1999-12-31T23:59:59.000000", "1970-01-01T00:00:00.000000"]
@@ -233,7 +233,7 @@ def check_render(di, data, text, max_rows, where, is_geo=False):
     nrow = data.nrow
     eff = max_rows or di.PRINT_MAX_ROWS
     shown = min(nrow, eff)
-    lines = text.split("\n")
+    lines = text.splitlines() if text else [""]      # any line boundary a cell smuggles in counts
     cut = eff < nrow
     total = [ln for ln in lines if ln.startswith("... ") and ln.endswith(" rows total")]
     if cut and (not total or str(nrow) not in total[-1]):
@@ -259,7 +259,7 @@ def check_render(di, data, text, max_rows, where, is_geo=False):
         col = dict.__getitem__(data, n)
         if col.dtype.kind in "OTU":
             for v in col[:shown]:
-                s = str(v)
+                s = (str(v).splitlines() or [""])[0]      # only the first line of a cell is shown
                 if any(wcwidth.wcwidth(ch) < 0 for ch in s):
                     control = True
         if any(wcwidth.wcwidth(ch) < 0 for ch in n):
@@ -269,7 +269,7 @@ def check_render(di, data, text, max_rows, where, is_geo=False):
         col = dict.__getitem__(data, n)
         if col.dtype.kind in "OTU" and any("\n" in str(v) or "\r" in str(v) for v in col[:shown]):
             multiline = True
-    if not multiline and not control:
+    if not control:
         for b in blocks:
             if len(b) != shown + 3:
                 bad.append(("data-row-count", f"{where}: block has {len(b) - 3} data rows, expected "
